@@ -102,7 +102,15 @@ func propertyFailsL(prop, op, res, lean string) (why string) {
 		if base == "encspec" && hasPrefix(lean, "ok") && res != lean {
 			p := getBody(NewR(args), kind)
 			if wfPacket(p) {
-				return tagged("Marshal output differs from the RFC layout (Spec/Wire.lean rendering: "+clip(lean, 80)+")", p, tagSLI)
+				why := "Marshal output differs from the RFC layout (Spec rendering: " + clip(lean, 80) + ")"
+				if c, ok := p.(*rtcp.CCFeedbackReport); ok {
+					for _, b := range c.ReportBlocks {
+						if len(b.MetricBlocks) > 0 {
+							return why + " [ccfb-num-reports]"
+						}
+					}
+				}
+				return tagged(why, p, tagSLI)
 			}
 		}
 	case "C04":
